@@ -648,7 +648,7 @@ def build_C17(ctx, tier, rnd):
     # queues of 0..6 stored events (as an older run of the same release left them), then an update: at most
     # three are sent, oldest first, before the check, and the queue is empty afterwards
     tag = '%s.%s' % (hx(APP), hx(REL1))
-    pool = ['F.2.%s.e' % tag, 'F.1.%s.i' % tag, 'F.3.%s.e' % tag, 'F.5.%s.i' % tag, 'F.7.%s.e' % tag, 'F.9.%s.i' % tag, 'S.4.%s.n' % tag]
+    pool = ['F.2.%s.e' % tag, 'F.1.%s.i' % tag, 'F.3.%s.e' % tag, 'F.5.%s.i' % tag, 'F.7.%s.e' % tag, 'F.9.%s.i' % tag, 'S.4.%s.n' % tag, 'D.6.%s.n' % tag]
     for n in range(0, 7):
         for rot in range(3 if tier == 'quick' else 7):
             evs = [pool[(rot + j) % len(pool)] for j in range(n)]
@@ -1257,6 +1257,19 @@ def run_C15(pid, tier, seed, model_ok=True):
                 hs.append(('nores%d' % nores, [al.init] + al.seq(PFX[pk]) + [o] + al.seq(['q', 'p', 'c'])))
                 nores += 1
         hs.append(('nores_noinit', ['op update0 err err', 'op updatet err err', 'op check0 err', al.init, 'op nextnum']))
+        # ABI edges the model has no word for: NULL to the free functions, non-UTF-8 C strings, NULL parameters
+        edge_ops = ['op initbadutf8', 'op freenull', 'op updatebadch', al.init] + al.seq(['u1']) + \
+                   ['op freenull', 'op updatebadch', 'op checkbadch', 'op nextnum', 'op initbadutf8', 'op nextnum']
+        _, eimpl, eex = run_both(ctx.header(), [('abi_edges', edge_ops)], work, impl_only=True)
+        extras += eex
+        et = [parse_line(l) for l in eimpl.get('abi_edges', [])]
+        want = ['false,false', 'unit', '-1', 'true', '1', 'unit', '-1', 'false', '1', 'false,false', '1']
+        got = [x['out'] for x in et]
+        if got != want:
+            fails.append(('abi_edges', 0, 'C15: ABI edge cases (NULL to free functions, non-UTF-8 channel / release version, NULL parameters) answered %s, expected %s' % (got, want), edge_ops, ctx.header()))
+        elif any(a['raw'].split(' ', 1)[1] != b['raw'].split(' ', 1)[1] for a, b in zip(et[4:10], et[5:11]) if True) and \
+                len(set(x['raw'].split(' ', 1)[1].rsplit(' net=', 1)[0] for x in et[4:])) != 1:
+            fails.append(('abi_edges', 0, 'C15: an ABI edge-case call changed the stored state', edge_ops, ctx.header()))
         model, impl, ex = run_both(ctx.header(), hs, work, impl_only=not model_ok)
         extras += ex
         if model_ok:
